@@ -27,7 +27,8 @@
 // first message of the line, and used for all of them — the line is an operation history on one
 // RtData: what a dispatch leaves behind in it (d.obj, d.port, d.loc, d.matches) is what the next
 // one starts with.  d.obj after each dispatch is printed (`o<object>`).  The message lives in an
-// exact-size heap block of message size + <slack> bytes.
+// exact-size block of message size + <slack> bytes: a fresh heap block, or - on the `+k` lines - at one
+// and the same address for all messages of the line (MsgArena below).
 // Only observables are printed, in canonical form (see the driver) — never the hash tables.
 #include "common.h"
 #include <rtosc/rtosc.h>
@@ -37,11 +38,46 @@
 #include <functional>
 #include <algorithm>
 #include <cstdarg>
+#if defined(__SANITIZE_ADDRESS__)
+#define VD_ASAN 1
+#elif defined(__has_feature)
+#if __has_feature(address_sanitizer)
+#define VD_ASAN 1
+#endif
+#endif
+#ifdef VD_ASAN
+#include <sanitizer/asan_interface.h>
+#define VD_POISON(p, n) __asan_poison_memory_region((p), (n))
+#define VD_UNPOISON(p, n) __asan_unpoison_memory_region((p), (n))
+#else
+#define VD_POISON(p, n) ((void)0)
+#define VD_UNPOISON(p, n) ((void)0)
+#endif
 using namespace vh;
+
+// The messages of a `+k` line (operation history) all live at ONE address: malloc never hands out the
+// same address twice while ASan's quarantine is filling, so code that remembers something about a
+// message *by its address* (a cache keyed on the message pointer) would never be caught with heap
+// blocks.  The region is poisoned except for the exact bytes of the current message (8-aligned start,
+// as in harness/bundle_common.h): an access outside it is reported as `use-after-poison`.
+struct MsgArena {
+    unsigned char *base = nullptr;
+    size_t size = 1 << 16;
+    char *place(const bytes &mb) {
+        if (!base) base = (unsigned char *)malloc(size);
+        if (mb.size() + 256 > size) return nullptr;      // does not fit: the caller uses a heap block
+        VD_POISON(base, size);
+        unsigned char *at = (unsigned char *)(((uintptr_t)base + 128 + 7) & ~(uintptr_t)7);
+        VD_UNPOISON(at, mb.size());
+        memcpy(at, mb.data(), mb.size());
+        return (char *)at;
+    }
+    void close() { if (base) VD_POISON(base, size); }
+};
+static MsgArena &msg_arena() { static MsgArena a; return a; }
 
 struct Log {
     std::vector<std::string> calls;
-    std::vector<std::string> ppaths;           // paths of the invoked ports (kind P)
     const char *base = nullptr;
     bool sugar = false;
 };
@@ -124,7 +160,6 @@ static void log_call(char kind, const std::string &who, const char *m, rtosc::Rt
     s += ",";
     s += kind == 'D' ? std::string("*") : show_port(d.port);
     L.calls.push_back(s);
-    if (kind == 'P') L.ppaths.push_back(who);
 }
 
 static bool parse_nums(const std::string &s, size_t &i, std::vector<size_t> &out) {
@@ -289,12 +324,14 @@ static bool build(const Ast &a, TNode &t, const std::string &path) {
 struct SLeaf { int level; static const rtosc::Ports ports; };
 struct SMid {
     int pad0;                                  // no member shares the address of its object
-    SLeaf one; SLeaf arr[3]; SLeaf *ptr; SLeaf *parr[2]; int self;
+    SLeaf one; SLeaf op2s[3]; SLeaf *ptr; SLeaf *lfo1p[2]; int self;    // member names with digits: the
+                                               // element index is the number behind the name's '#', not the
+                                               // first number of the address
     static const rtosc::Ports ports;
 };
 struct STop {
     int pad0;
-    SMid mid; SMid mids[4]; SMid *pm; SMid *pms[2]; SLeaf leafs[12]; int top;
+    SMid mid; SMid mids[4]; SMid *pm; SMid *pm2s[2]; SLeaf v9[12]; int top;
     static const rtosc::Ports ports;
 };
 
@@ -337,9 +374,9 @@ const rtosc::Ports SLeaf::ports = {
 #define rObject SMid
 const rtosc::Ports SMid::ports = {
     rRecur(one, "d"),
-    rRecurs(arr, 3, "d"),
+    rRecurs(op2s, 3, "d"),
     rRecurp(ptr, "d"),
-    rRecursp(parr, 2, "d"),
+    rRecursp(lfo1p, 2, "d"),
     {"self", "", nullptr, [](const char *, rtosc::RtData &d) { sugar_log(&SMid::ports, d); }},
 };
 #undef rObject
@@ -348,8 +385,8 @@ const rtosc::Ports STop::ports = {
     rRecur(mid, "d"),
     rRecurs(mids, 4, "d"),
     rRecurp(pm, "d"),
-    rRecursp(pms, 2, "d"),
-    rRecurs(leafs, 12, "d"),
+    rRecursp(pm2s, 2, "d"),
+    rRecurs(v9, 12, "d"),
     {"top:", "", nullptr, [](const char *, rtosc::RtData &d) { sugar_log(&STop::ports, d); }},
 };
 #undef rObject
@@ -367,28 +404,28 @@ struct SugarData : rtosc::RtData {
 
 struct SWorld {
     STop top;
-    SMid xm[3];                                // *pm, *pms[0], *pms[1]
-    SLeaf xl[8 * 3];                           // per SMid: *ptr, *parr[0], *parr[1]
+    SMid xm[3];                                // *pm, *pm2s[0], *pm2s[1]
+    SLeaf xl[8 * 3];                           // per SMid: *ptr, *lfo1p[0], *lfo1p[1]
     size_t nl = 0;
     void reg_leaf(SLeaf *l, const std::string &c) { g_objs.push_back({l, c}); }
     void reg_mid(SMid *m, const std::string &c) {
         g_objs.push_back({m, c});
-        // port indices of SMid::ports: 0 one/  1 one:  2 arr#3/  3 ptr/  4 parr#2/  5 self
+        // port indices of SMid::ports: 0 one/  1 one:  2 op2s#3/  3 ptr/  4 lfo1p#2/  5 self
         reg_leaf(&m->one, c + ".0");
-        for (int k = 0; k < 3; ++k) reg_leaf(&m->arr[k], c + ".2#" + std::to_string(k));
+        for (int k = 0; k < 3; ++k) reg_leaf(&m->op2s[k], c + ".2#" + std::to_string(k));
         m->ptr = &xl[nl++];
         reg_leaf(m->ptr, c + ".3");
-        for (int k = 0; k < 2; ++k) { m->parr[k] = &xl[nl++]; reg_leaf(m->parr[k], c + ".4#" + std::to_string(k)); }
+        for (int k = 0; k < 2; ++k) { m->lfo1p[k] = &xl[nl++]; reg_leaf(m->lfo1p[k], c + ".4#" + std::to_string(k)); }
     }
     SWorld() {
         g_objs.push_back({&top, "r"});
-        // port indices of STop::ports: 0 mid/  1 mid:  2 mids#4/  3 pm/  4 pms#2/  5 leafs#12/  6 top:
+        // port indices of STop::ports: 0 mid/  1 mid:  2 mids#4/  3 pm/  4 pm2s#2/  5 v9#12/  6 top:
         reg_mid(&top.mid, "0");
         for (int k = 0; k < 4; ++k) reg_mid(&top.mids[k], "2#" + std::to_string(k));
         top.pm = &xm[0];
         reg_mid(top.pm, "3");
-        for (int k = 0; k < 2; ++k) { top.pms[k] = &xm[1 + k]; reg_mid(top.pms[k], "4#" + std::to_string(k)); }
-        for (int k = 0; k < 12; ++k) reg_leaf(&top.leafs[k], "5#" + std::to_string(k));
+        for (int k = 0; k < 2; ++k) { top.pm2s[k] = &xm[1 + k]; reg_mid(top.pm2s[k], "4#" + std::to_string(k)); }
+        for (int k = 0; k < 12; ++k) reg_leaf(&top.v9[k], "5#" + std::to_string(k));
     }
 };
 static SWorld *g_world = nullptr;
@@ -446,39 +483,11 @@ static void build_msg(const bytes &addr, const bytes &tags, size_t slack, bytes 
     }
 }
 
-static std::vector<int> split_path(const std::string &s) {
-    std::vector<int> v;
-    size_t i = 0;
-    while (i < s.size()) {
-        size_t j = s.find('.', i);
-        if (j == std::string::npos) j = s.size();
-        v.push_back(atoi(s.substr(i, j - i).c_str()));
-        i = j + 1;
-    }
-    return v;
-}
-// the invoked ports form one chain root -> ... -> leaf
-static bool is_chain(const Log &lg) {
-    std::vector<std::vector<int>> ps;
-    for (auto &p : lg.ppaths) ps.push_back(split_path(p));
-    std::stable_sort(ps.begin(), ps.end(), [](const std::vector<int> &a, const std::vector<int> &b) { return a.size() < b.size(); });
-    std::vector<int> prev;
-    for (auto &p : ps) {
-        if (p.size() != prev.size() + 1) return false;
-        if (!std::equal(prev.begin(), prev.end(), p.begin())) return false;
-        prev = p;
-    }
-    return true;
-}
 static std::string show_calls(Log &lg) {
     std::sort(lg.calls.begin(), lg.calls.end());
     std::string s = "[";
     for (size_t i = 0; i < lg.calls.size(); ++i) s += (i ? ";" : "") + lg.calls[i];
     return s + "]";
-}
-static std::string final_port(const Log &lg, const rtosc::Port *p) {
-    if (lg.sugar || !is_chain(lg)) return "*";
-    return show_port(p);
 }
 static std::string final_loc(const char *loc) {
     if (!strcmp(loc, "") || !strcmp(loc, "/")) return "ok";
@@ -519,30 +528,37 @@ static std::string one_msg(const rtosc::Ports &ports, void *rootobj, bool sugar,
     if (!unhex(tok.substr(1, colon - 1), addr) || !unhex(tok.substr(colon + 1), tags)) return "bad-msg";
     bytes mb;
     build_msg(addr, tags, slack, mb);
-    Exact M(mb);
+    // fresh RtData: a fresh exact-size heap block; a history on one RtData: every message at the same address
+    std::unique_ptr<Exact> Mheap;
+    char *mp = keep ? msg_arena().place(mb) : nullptr;
+    if (!mp) { Mheap.reset(new Exact(mb)); mp = Mheap->c(); }
+    struct Closer { bool on; ~Closer() { if (on) msg_arena().close(); } } closer{keep};
     if (!keep || !pr.dl) pr.fresh(rootobj, locsize, base);
     std::string out;
     {   // with location buffer
         Data &d = *pr.dl;
         Log lg;
-        lg.base = M.c();
+        lg.base = mp;
         lg.sugar = sugar;
         g_log = &lg;
-        ports.dispatch(M.c(), d, base);
+        ports.dispatch(mp, d, base);
         g_log = nullptr;
-        out += show_calls(lg) + "m" + std::to_string(d.matches) + "p" + final_port(lg, d.port) + "l" + final_loc(d.loc) +
-               "o" + show_obj_after(sugar, d.obj);
+        // the statement speaks of the match count and of loc after a ROOT dispatch only, and of d.port as a
+        // callback sees it: what a dispatch leaves in d.port is not printed (`p*`), d.matches and d.loc of a
+        // non-base dispatch neither (`m*`, `l*`)
+        out += show_calls(lg) + "m" + (base ? std::to_string(d.matches) : std::string("*")) + "p*l" +
+               (base ? final_loc(d.loc) : std::string("*")) + "o" + show_obj_after(sugar, d.obj);
     }
     out += "/";
     {   // without
         Data &d = *pr.dn;
         Log lg;
-        lg.base = M.c();
+        lg.base = mp;
         lg.sugar = sugar;
         g_log = &lg;
-        ports.dispatch(M.c(), d, base);
+        ports.dispatch(mp, d, base);
         g_log = nullptr;
-        out += show_calls(lg) + "p" + final_port(lg, d.port) + "o" + show_obj_after(sugar, d.obj);
+        out += show_calls(lg) + "p*o" + show_obj_after(sugar, d.obj);
     }
     return out;
 }
